@@ -29,7 +29,10 @@ class FakeShuffle:
         self.seed, self.k, self.out = seed, 0, []
 
     def __call__(self, x):
-        if isinstance(x, np.ndarray):
+        if isinstance(x, np.ndarray) and x.ndim == 2:
+            lst = fake_perm(self.seed, self.k, [tuple(int(u) for u in v) for v in x])
+            x[:] = np.array(lst)
+        elif isinstance(x, np.ndarray):
             lst = fake_perm(self.seed, self.k, [int(v) for v in x])
             x[:] = lst
         else:
